@@ -15,12 +15,12 @@ from vlib.server import run_coro
 PROP = 'C18'
 MANIFEST = dict(
     text="Bounded symbolic check of the three integrations' request gate and reply construction: integration x base media type {the 3 documented types, near-misses (application/jsons, application/x+json, text/json), unrelated, header missing} "
-         "x parameter suffix x body kind {call ok, call failing, notification, batch, invalid JSON} x status-by-error function (default / by error code, the chosen statuses picked by symbolic bits); several endpoint prefixes on one Flask / aiohttp application (each request must be served by its own endpoint's dispatcher). "
+         "x parameter suffix x body kind {call ok, call failing, notification, batch, invalid JSON; bytes that are not UTF-8 with the media types that are refused anyway} x status-by-error function (default / by error code, the chosen statuses picked by symbolic bits); several endpoint prefixes on one Flask / aiohttp application (each request must be served by its own endpoint's dispatcher). "
          "For werkzeug the Content-Type is `base + symbolic suffix (len <= 1 quick / <= 2 thorough)`, so the solver looks for ANY such characters that make a wrong media type pass or a right one fail; for Flask and aiohttp a symbolic header cannot cross their request objects "
          "(LocalProxy / C multidict), there the suffix comes from a concrete list. Oracle: media type (part before ';', trimmed, case-insensitive) documented => body == the dispatcher's text, JSON content type, status == status_by_error(codes) (200 default), empty 200 when the dispatcher returns nothing; "
          "otherwise 415 AS A RESPONSE and no method executed.",
     ref='5 C18',
-    note="NOT covered: non-UTF-8 bodies, symbolic headers through Flask / aiohttp, URL routing of the frameworks, sockets. Bodies are concrete JSON texts (the frameworks need real bytes); the dispatcher's own behaviour on symbolic documents is C01-C03. "
+    note="NOT covered: non-UTF-8 bodies with a DOCUMENTED media type (the statement does not say what the reply is), symbolic headers through Flask / aiohttp, URL routing of the frameworks, sockets. Bodies are concrete JSON texts (the frameworks need real bytes); the dispatcher's own behaviour on symbolic documents is C01-C03. "
          "aiohttp / Flask signal 415 by raising their HTTPException, which those frameworks turn into a response (accepted); a raw WSGI app has no such layer, so for werkzeug the exception must not escape the WSGI callable.",
 )
 BOUNDS = {
